@@ -82,18 +82,34 @@ def copyToFlush (s : LB) : LB :=
                dropped := s.dropped ++ old.ents }
   else s
 
+/-- "this is unlikely to happen, but just in case": `if m.lastTsNs >= eventTsNs { eventTsNs = m.lastTsNs + 1 }` -/
+def fixTs (s : LB) (ets : Nat) : Nat := if s.lastTs ≥ ets then s.lastTs + 1 else ets
+
+/-- `m.lastTsNs = eventTsNs` and `if m.pos == 0 { m.startTime = ts }` -/
+def stamp (s : LB) (ts : Nat) : LB :=
+  { s with lastTs := ts, cur := if s.cur.pos = 0 then { s.cur with start := ts } else s.cur }
+
+/-- `m.startTime.Add(m.flushInterval).Before(ts) || len(m.buf)-m.pos < size+4` -/
+def needRotate (s : LB) (ts size : Nat) : Bool :=
+  decide (s.cur.start + s.cfg.interval < ts ∨ s.cur.cap - s.cur.pos < size + 4)
+
+/-- `m.flushChan <- m.copyToFlush(); m.startTime = ts; if len(m.buf) < size+4 { m.buf = make([]byte, 2*size+4) }` -/
+def rotate (s : LB) (ts size : Nat) : LB :=
+  let s' := copyToFlush s
+  { s' with cur := { s'.cur with start := ts, cap := if s'.cur.cap < size + 4 then 2 * size + 4 else s'.cur.cap } }
+
+/-- `m.stopTime = ts`, append to `idx`, copy the size-prefixed entry, `m.pos += size + 4` -/
+def put (s : LB) (ts size : Nat) : LB :=
+  { s with cur := { s.cur with stop := ts, ents := s.cur.ents ++ [ts], pos := s.cur.pos + size + 4 }
+           log := s.log ++ [ts] }
+
 /-- `AddToBuffer(partitionKey, data, eventTsNs)` with `eventTsNs ≠ 0`, `len(data) = dlen` -/
 def add (s : LB) (ets dlen : Nat) : LB :=
-  let ts := if s.lastTs ≥ ets then s.lastTs + 1 else ets
+  let ts := fixTs s ets
   let size := entrySize s.cfg.hash ts dlen
-  let s1 : LB := { s with lastTs := ts, cur := if s.cur.pos = 0 then { s.cur with start := ts } else s.cur }
-  let s2 : LB :=
-    if s1.cur.start + s.cfg.interval < ts ∨ s1.cur.cap - s1.cur.pos < size + 4 then
-      let s' := copyToFlush s1
-      { s' with cur := { s'.cur with start := ts, cap := if s'.cur.cap < size + 4 then 2 * size + 4 else s'.cur.cap } }
-    else s1
-  { s2 with cur := { s2.cur with stop := ts, ents := s2.cur.ents ++ [ts], pos := s2.cur.pos + size + 4 }
-            log := s2.log ++ [ts] }
+  let s1 := stamp s ts
+  let s2 := if needRotate s1 ts size then rotate s1 ts size else s1
+  put s2 ts size
 
 /-- one iteration of `loopInterval` -/
 def sealNow (s : LB) : LB := copyToFlush s
